@@ -623,6 +623,9 @@ func main() {
 	for _, p := range strings.Split(*parts, ",") {
 		want[p] = true
 	}
+	if want["mem"] { // first: before any Executer / libp2p host (background goroutines allocate) exists in the process
+		genMem(o, hx.NewRng(hx.SeedFromEnv()+7))
+	}
 	if want["struct"] {
 		genStructCases(o, rng, *exh, *nvals, *nmut)
 	}
@@ -631,8 +634,5 @@ func main() {
 	}
 	if want["net"] && *nnet > 0 {
 		genNet(o, rng, *nnet)
-	}
-	if want["mem"] {
-		genMem(o, rng)
 	}
 }
